@@ -111,11 +111,12 @@ func (r *ConcRun) execOp(t *Task, co *concOp) {
 		}
 		co.readRes = rl
 	case "list":
-		co.readAt = r.commits
 		ds := h.Dataset(op.DS)
 		rl := &readList{ds: op.DS}
 		if ds != nil {
 			res, err := ds.GetEntities("", op.Limit)
+			// the read gives the scheduler a chance when it begins; what it sees is the state when it returns
+			co.readAt = r.commits
 			rl.err = err
 			if err == nil {
 				rl.ents = canonList(h, res.Entities)
@@ -128,6 +129,7 @@ func (r *ConcRun) execOp(t *Task, co *concOp) {
 		rf := &readFeed{ds: op.DS, since: op.Since}
 		if ds != nil {
 			res, err := ds.GetChanges(0, op.Limit, false)
+			co.readAt = r.commits
 			rf.err = err
 			if err == nil {
 				rf.ents = canonList(h, res.Entities)
@@ -140,6 +142,7 @@ func (r *ConcRun) execOp(t *Task, co *concOp) {
 		rt := &readTok{ds: op.DS, latest: op.Latest, limit: op.Limit, token: r.tokens[co.task]}
 		if ds != nil {
 			res, err := ds.GetChanges(rt.token, op.Limit, op.Latest)
+			co.readAt = r.commits
 			rt.err = err
 			if err == nil {
 				rt.ents = canonList(h, res.Entities)
@@ -176,6 +179,7 @@ func (r *ConcRun) execOp(t *Task, co *concOp) {
 			}
 		} else if ds := h.Dataset(op.DS); ds != nil {
 			res, err := ds.GetChanges(0, 0, false)
+			co.readAt = r.commits
 			rs.err = err
 			if err == nil {
 				rs.ents = canonList(h, res.Entities)
